@@ -10,8 +10,9 @@ import vlib, hashcheck
 HASH_PROPS = {
     # pid: (monitor prefixes that decide this property, reject %, Lean module, theorems)
     "C01": (("C01-",), 0, "IsalVerif.Props.C01",
-            ["IsalVerif.HashMB.C01_segmentation", "IsalVerif.HashMB.C01_resubmit_partial",
-             "IsalVerif.HashMB.C01_padEnd64", "IsalVerif.HashMB.C01_padEnd128"]),
+            ["IsalVerif.HashMB.C01", "IsalVerif.HashMB.C01_reuse", "IsalVerif.HashMB.C01_append",
+             "IsalVerif.HashMB.C01_segmentation", "IsalVerif.HashMB.C01_is_standard",
+             "IsalVerif.HashMB.C01_params_ok"]),
 }
 
 
